@@ -14,19 +14,19 @@ use std::cell::RefCell;
 // ---------------------------------------------------------------------------------------
 #[derive(Clone, Copy, Debug, PartialEq, Eq)]
 pub struct EncLayout {
-    pub id: u8, // 0..=7
+    pub id: u8, // 0..=3
 }
 pub fn encode_args(id: u8, k: KeyCode, bits: u16, h: HandleControl) -> char {
-    let v = 0x10000u32 + ((id as u32 & 7) << 17) + ((key_idx(k) as u32 & 0x7F) << 10) + ((bits as u32 & 0x1FF) << 1) + mode_idx(h) as u32;
+    let v = 0x10000u32 + ((id as u32 & 3) << 18) + ((key_idx(k) as u32 & 0xFF) << 10) + ((bits as u32 & 0x1FF) << 1) + mode_idx(h) as u32;
     char::from_u32(v).expect("harness: encoding layout produced an invalid char")
 }
 pub fn decode_args(c: char) -> Option<(u8, KeyCode, u16, HandleControl)> {
     let v = (c as u32).checked_sub(0x10000)?;
-    let id = (v >> 17) as u8;
-    let idx = ((v >> 10) & 0x7F) as usize;
+    let id = (v >> 18) as u8;
+    let idx = ((v >> 10) & 0xFF) as usize;
     let bits = ((v >> 1) & 0x1FF) as u16;
     let h = MODES[(v & 1) as usize];
-    if id > 7 || idx >= ALL_KEYS.len() {
+    if id > 3 || idx >= ALL_KEYS.len() {
         return None;
     }
     Some((id, ALL_KEYS[idx], bits, h))
@@ -55,7 +55,7 @@ pub fn history_from_json(v: &Value) -> Vec<FlatEv> {
 fn hist_text(h: &[FlatEv]) -> String {
     h.iter()
         .map(|f| match f {
-            FlatEv::Key(k, s) => format!("{:?}{}", k, match s { KeyState::Down => "↓", KeyState::Up => "↑", KeyState::SingleShot => "·" }),
+            FlatEv::Key(k, s) => format!("{:?}{}", k, state_arrow(*s)),
             FlatEv::SetMode(m) => format!("mode={}", mode_name(*m)),
             FlatEv::ChangeLayout(i) => format!("layout={}", i),
         })
@@ -97,7 +97,7 @@ fn history_dev(h: &[FlatEv], start_mode: HandleControl, oracle: Oracle) -> Resul
                     }
                 }
                 FlatEv::ChangeLayout(id) => {
-                    ed_layout = *id & 7;
+                    ed_layout = *id & 3;
                     ed.change_layout(EncLayout { id: ed_layout });
                 }
                 FlatEv::Key(k, s) => {
@@ -258,7 +258,7 @@ fn explore_states(run: &mut Run, oracle: Oracle) {
                         kb.set_ctrl_handling(*m);
                         ed.set_ctrl_handling(*m);
                     }
-                    FlatEv::ChangeLayout(i) => ed.change_layout(EncLayout { id: *i & 7 }),
+                    FlatEv::ChangeLayout(i) => ed.change_layout(EncLayout { id: *i & 3 }),
                 }
             }
             format!("{:?}|{:?}", kb, ed)
